@@ -6,6 +6,7 @@ package leasetime
 
 import (
 	"errors"
+	"math"
 	"time"
 
 	"github.com/coredhcp/coredhcp/handler"
@@ -49,6 +50,11 @@ func setup4(args ...string) (handler.Handler4, error) {
 	leaseTime, err := time.ParseDuration(args[0])
 	if err != nil {
 		log.Errorf("invalid duration: %v", args[0])
+		return nil, errors.New("lease_time failed to initialize")
+	}
+	// the IP Address Lease Time option carries an unsigned 32-bit number of seconds
+	if leaseTime < 0 || leaseTime/time.Second > math.MaxUint32 {
+		log.Errorf("lease time out of range: %v", args[0])
 		return nil, errors.New("lease_time failed to initialize")
 	}
 	v4LeaseTime = leaseTime
